@@ -213,7 +213,7 @@ def real_reads(ctx, acc):
         real_read_case(ctx, acc, text, exp, classes, n[0] % 4)
 
     strat = gen_lex.top(max_items=5, max_leaves=20)
-    runner.hyp_run(ctx, strat, body, ctx.share(320 if ctx.quick else 12000), salt=31)
+    runner.hyp_run(ctx, strat, body, ctx.share(320 if ctx.quick else 4000), salt=31)
 
 
 def finish(acc, tier):
